@@ -118,6 +118,15 @@ def tlc_run(module, cfg, wd, workers=None, env=None, jvm=None, tlc=None, timeout
     return r
 
 
+def tlc_mc_many(jobs, wd, par=4, workers=3, timeout=900):
+    """several small exhaustive runs side by side (spec mutants: most of their time is JVM start-up);
+    jobs = [(module, cfg, tag)], returns the results in order"""
+    from concurrent.futures import ThreadPoolExecutor
+    with ThreadPoolExecutor(max_workers=par) as ex:
+        futs = [ex.submit(tlc_mc, m, c, wd, workers, timeout, t) for (m, c, t) in jobs]
+        return [f.result() for f in futs]
+
+
 def tlc_mc(module, cfg, wd, workers=None, timeout=3600, tag="mc", coverage=False, tlc=None, env=None):
     """exhaustive model checking; a violated invariant here is a defect of the SPECIFICATION
     (or a spec mutant being detected) -- the caller decides.  Tool crashes raise ToolTrouble."""
